@@ -1,6 +1,6 @@
 """Per-property check configuration for ./check (counts are case counts, never time limits)."""
 
-HOOK_COMMITS = ["7d6b6c7", "c967367"]
+HOOK_COMMITS = ["7d6b6c7", "c967367", "db8645a"]
 
 NOT_APPLICABLE = {}
 
@@ -205,6 +205,29 @@ CHECKS = {
         "subs": [
             {"name": "options", "test": "TestOptions", "quick": 6000, "thorough": 100000, "shards": 16},
             {"name": "logging", "test": "TestLogging", "quick": 4000, "thorough": 50000, "shards": 4},
+        ],
+    },
+    "C18": {
+        "pkg": "c18",
+        "level": "exploration",
+        "level_text": ("Generated callback lists (contains in mixed case / regex in lower case or with its own flag, not-contains, case "
+                       "sensitivity, once, complete, keep-output, next-timeout, optional reply line) against a causal scripted device "
+                       "whose steps make several triggers true in generated orders and segmentations. The oracle is a reference model "
+                       "written from the statement that is replayed after the run over the list of chunks the transport delivered: after "
+                       "every chunk the first callback in list order whose trigger holds on the output accumulated since the last reset "
+                       "must be the next recorded invocation, with that output as argument; end state (complete with the whole dialogue, "
+                       "once-error, timeout not earlier than the timeout in force) must agree. Real-time tier: the callback loop spins "
+                       "and cannot run on the virtual clock."),
+        "level_note": ("Trusted: the reference predicate and replay (c18.model). Where the library may legitimately evaluate the kept output "
+                       "before or after the next queued chunk (only after a callback that keeps its output) both replays are accepted. "
+                       "Wall-clock: only a lower bound on the timeout is asserted; a 10 s watchdog marks the case infeasible."),
+        "technique": "property-based testing (rapid) with a post-hoc reference-model replay over the recorded chunk list (real-time tier)",
+        "rule": ("1-5 callbacks x 1-5 device steps x cut plan x echo x timeouts. Non-trivial: not-contains, regex or once used, or two callbacks "
+                 "with the same contains text. Distinct = sha1(case)."),
+        "assumptions": ["regexes never match the empty string", "replies typed by callbacks contain no trigger words"],
+        "subs": [
+            {"name": "callbacks", "test": "TestCallbacks", "quick": 300, "thorough": 3000, "shards": 16, "timeout_quick": 1200},
+            {"name": "forced-order", "test": "TestForcedOrder", "quick": 60, "thorough": 400, "shards": 8},
         ],
     },
 }
